@@ -350,12 +350,15 @@ class NetworkMixin(RadioMixin):
             if temp_buf is None:
                 return ret_val
             if (
-                not self.frame_buf.unpack(temp_buf)
-                or not is_address_valid(self.frame_buf.header.to_node)
-                or not is_address_valid(self.frame_buf.header.from_node)
+                len(temp_buf) < 8
+                or not is_address_valid(temp_buf[2] | (temp_buf[3] << 8))  # to_node
+                or not is_address_valid(temp_buf[0] | (temp_buf[1] << 8))  # from_node
             ):
                 # print("discarding frame due to invalid network addresses.")
+                # frame_buf is left alone: it may still hold the frame that ret_val
+                # describes (which the caller is about to handle)
                 continue
+            self.frame_buf.unpack(temp_buf)
 
             # print(
             #     "Received frame: " + self.frame_buf.header.to_string(),
